@@ -43,7 +43,7 @@ func (c05) Components() map[string]string {
 }
 func (c05) Budget(tier string) int {
 	if tier == "thorough" {
-		return 40000
+		return 100000
 	}
 	return 640
 }
@@ -274,6 +274,7 @@ func (p c05) Run(sc *Scenario) *Result {
 			break
 		}
 		a, b := conc[i].summary(), solo[i].summary()
+		res.Mix(a...)
 		if !sameStrings(a, b) {
 			res.Violate("differs-from-solo", "task %d: %s", i, diffStrings(a, b))
 		}
